@@ -17,7 +17,7 @@ Inductive evk :=
 | EAssign (l op r : string)
 | EReturn.
 
-Record ev := mkev { ek : evk; in_defer : bool; go_depth : nat; loop_depth : nat; clo : nat }.
+Record ev := mkev { ek : evk; in_defer : bool; go_depth : nat; loop_depth : nat; clo : nat; cond : nat }.
 
 Definition evk_eqb (a b : evk) : bool :=
   match a, b with
@@ -83,6 +83,7 @@ Definition open_files_ok (l : list ev) : bool :=
   unique (is_call "wg.Wait") (ctx false 1 0) l &&
   unique (is_call "out.close") (ctx false 1 0) l &&
   before (is_call "wg.Wait") (is_call "out.close") l &&
+  forallb (fun e => implb (is_call "wg.Wait" e || is_call "out.close" e || is_send "sema" e || is_recv "sema" e || is_call "wg.Done" e) (cond e =? 0)) l &&
   all_before (fun e => (go_depth e =? 1) && (1 <=? loop_depth e)) (is_call "wg.Wait") l &&
   all_before (fun e => 2 <=? go_depth e) (is_call "wg.Wait") l &&
   unique (is_k (ECall "out.syncReaderToBatcher" "goFilename, file, batchSize")) (ctx false 2 0) l &&
@@ -194,4 +195,6 @@ Definition agg_loop_ok (l : list ev) : bool :=
   unique (pand (is_call "writeOutput") (ctx_go false 0)) (ctx false 0 0) l &&
   all_before (fun e => (go_depth e =? 0) && (1 <=? loop_depth e)) (is_send "outputDone") l &&
   before (is_send "outputDone") (pand (is_call "writeOutput") (ctx_go false 0)) l &&
+  (* the hand-off and the final render are unconditional *)
+  forallb (fun e => implb (is_send "outputDone" e || (is_call "writeOutput" e && (go_depth e =? 0))) (cond e =? 0)) l &&
   (count (is_call "close") l =? 0).
